@@ -25,6 +25,8 @@ def payload_family(name, rng, bufs=(16, 64, 4096)):
         sizes = [126, 127, 128, 129, 16382, 16383, 16384, 16385]
     elif name == "big":
         sizes = [70000, 1 << 20, (1 << 20) + 1, 3, 5000]
+    elif name == "zerolead":     # payloads starting with 0x00 (a byte that terminates any varint running over from the header), many lengths
+        sizes = list(range(1, 61))
     else:
         sizes = [3, 10, 40, 100, 300, 1000, 20, 64]
     for i, n in enumerate(sizes):
@@ -38,7 +40,10 @@ def payload_family(name, rng, bufs=(16, 64, 4096)):
             b = (b"abcabcabd" * (n // 9 + 1))[:n]
         else:
             b = rnd(n)
-        b = bytes([65 + i]) + b      # make payloads pairwise distinct
+        if name == "zerolead":
+            b = b"\x00" + bytes([i]) + b"\x00" * (i % 3) + b
+        else:
+            b = bytes([65 + i]) + b  # make payloads pairwise distinct
         out["r%d" % i] = b
     assert len(set(out.values())) == len(out)
     return out
